@@ -8,6 +8,8 @@ GO=/opt/veriftools/go1.26.8/bin/go
 mkdir -p bin out evidence
 (cd tools/instr && $GO build -o /verif/bin/instr .)
 (cd harness && $GO build -o /verif/bin/vcheck ./cmd/vcheck)
-/verif/bin/instr -repo /repo -out /verif/out/overlay-core -profile core -shim /verif/tools/instr/shim
-(cd harness && $GO test -c -vet=off -tags verif -overlay /verif/out/overlay-core/overlay.json -o /verif/out/bin/props-core.test ./props)
+for profile in duplex pools; do
+  /verif/bin/instr -repo /repo -out /verif/out/overlay-$profile -profile $profile -shim /verif/tools/instr/shim
+  (cd harness && $GO test -c -vet=off -tags verif -overlay /verif/out/overlay-$profile/overlay.json -o /verif/out/bin/props-$profile.test ./props)
+done
 echo "setup ok"
